@@ -20,24 +20,33 @@ def Benign : Entry → Prop
   | .event true => True
   | _ => False
 
-def BenExt (j j' : List Entry) : Prop := ∃ n ext, j' = j.take n ++ ext ∧ ∀ e ∈ ext, Benign e
+def AllB (l : List Entry) : Prop := ∀ e ∈ l, Benign e
 
-theorem benExt_refl (j : List Entry) : BenExt j j :=
-  ⟨j.length, [], by simp, by intro e he; cases he⟩
+theorem allB_nil : AllB [] := by intro e he; cases he
 
-theorem benExt_take (j : List Entry) (n : Nat) (ext : List Entry) (h : ∀ e ∈ ext, Benign e) :
-    BenExt j (j.take n ++ ext) := ⟨n, ext, rfl, h⟩
+theorem allB_append {a b : List Entry} (ha : AllB a) (hb : AllB b) : AllB (a ++ b) := by
+  intro e he
+  rcases List.mem_append.mp he with h | h
+  · exact ha e h
+  · exact hb e h
 
-theorem benExt_of_append {j tr j'' : List Entry} (htr : ∀ e ∈ tr, Benign e) (h : BenExt (j ++ tr) j'') : BenExt j j'' := by
-  obtain ⟨n, ext, h1, h2⟩ := h
-  refine ⟨n, tr.take (n - j.length) ++ ext, ?_, ?_⟩
-  · rw [h1, List.take_append, List.append_assoc]
-  · intro e he
-    rcases List.mem_append.mp he with he | he
-    · exact htr e (List.mem_of_mem_take he)
-    · exact h2 e he
+theorem allB_take {a : List Entry} (n : Nat) (ha : AllB a) : AllB (a.take n) :=
+  fun e he => ha e (List.mem_of_mem_take he)
 
-theorem failEvents_benign (k : Kind) (res : Res) (hk : k ≠ .create) : ∀ e ∈ failEvents k res, Benign e := by
+/-- `j'` is `j` followed by benign entries -/
+def BenApp (j j' : List Entry) : Prop := ∃ ext, j' = j ++ ext ∧ AllB ext
+
+/-- `j'` is `j`, or `j` truncated to exactly the snapshot `s`, followed by benign entries -/
+def BenStep (s : Nat) (j j' : List Entry) : Prop := ∃ ext, (j' = j ++ ext ∨ j' = j.take s ++ ext) ∧ AllB ext
+
+theorem benApp_refl (j : List Entry) : BenApp j j := ⟨[], by simp, allB_nil⟩
+
+theorem benStep_refl (s : Nat) (j : List Entry) : BenStep s j j := ⟨[], .inl (by simp), allB_nil⟩
+
+theorem benStep_of_app {s : Nat} {j j' : List Entry} (h : BenApp j j') : BenStep s j j' := by
+  obtain ⟨ext, h1, h2⟩ := h; exact ⟨ext, .inl h1, h2⟩
+
+theorem failEvents_benign (k : Kind) (res : Res) (hk : k ≠ .create) : AllB (failEvents k res) := by
   intro e he
   cases k <;> cases res <;> simp [failEvents] at he <;> first | (subst he; trivial) | exact absurd rfl hk
 
@@ -49,9 +58,10 @@ theorem depositRes_noncreate (P : Params) (k : Kind) (res : Res) (g r : Nat) (hk
   unfold depositRes
   rw [if_neg (by intro hh; exact hk hh.1)]
 
-/-- a finished non-CREATE frame leaves a benign extension of the journal it started from -/
-theorem finishFrame_benExt (P : Params) (m : Machine) (f : Frame) (rest : List Frame) (res : Res) (g r : Nat)
-    (hk : f.kind ≠ .create) : BenExt m.journal (finishFrame P m f rest res g r).journal := by
+/-- a finished non-CREATE frame leaves the journal it found, or that journal truncated to the
+    frame's own snapshot, followed by benign entries only -/
+theorem finishFrame_benStep (P : Params) (m : Machine) (f : Frame) (rest : List Frame) (res : Res) (g r : Nat)
+    (hk : f.kind ≠ .create) : BenStep f.snap m.journal (finishFrame P m f rest res g r).journal := by
   by_cases hres : res = .ok
   · subst hres
     have : (finishFrame P m f rest .ok g r).journal = m.journal ++ failEvents f.kind .ok := by
@@ -59,32 +69,43 @@ theorem finishFrame_benExt (P : Params) (m : Machine) (f : Frame) (rest : List F
       simp only [depositRes_noncreate P f.kind .ok g r hk]
       simp [hk]
     rw [this, failEvents_ok_noncreate f.kind hk, List.append_nil]
-    exact benExt_refl _
+    exact benStep_refl _ _
   · rw [finishFrame_journal_notok P m f rest res g r hres]
-    exact benExt_take _ _ _ (failEvents_benign f.kind res hk)
+    exact ⟨_, .inr rfl, failEvents_benign f.kind res hk⟩
 
-theorem runCallee_benExt (P : Params) (hg : P.guardPre = true) (m' : Machine) (f : Frame) (parents : List Frame)
-    (gas : Nat) (callee : Callee) (hro : m'.readOnly = true) (hk : f.kind ≠ .create) :
-    BenExt m'.journal (runCallee P m' f parents gas callee).journal := by
+/-- a callee entered on a fresh frame (snapshot = the caller's journal `j0`, journal already
+    extended by the benign `tr`) that returns without leaving a frame only appends benign entries
+    to `j0` -/
+theorem runCallee_benApp (P : Params) (hg : P.guardPre = true) (m' : Machine) (f : Frame) (parents : List Frame)
+    (gas : Nat) (callee : Callee) (j0 tr : List Entry) (hj : m'.journal = j0 ++ tr) (htr : AllB tr)
+    (hs : f.snap = j0.length) (hro : m'.readOnly = true) (hk : f.kind ≠ .create) :
+    BenApp j0 (runCallee P m' f parents gas callee).journal := by
+  have fin : ∀ (res : Res) (g r : Nat), BenApp j0 (finishFrame P m' f parents res g r).journal := by
+    intro res g r
+    obtain ⟨ext, h1, h2⟩ := finishFrame_benStep P m' f parents res g r hk
+    rcases h1 with h1 | h1
+    · exact ⟨tr ++ ext, by rw [h1, hj, List.append_assoc], allB_append htr h2⟩
+    · refine ⟨ext, ?_, h2⟩
+      rw [h1, hj, hs]; simp
   unfold runCallee
   split
-  · exact benExt_refl _
+  · exact ⟨tr, hj, htr⟩
   · rename_i addr req ok w
     split
-    · exact finishFrame_benExt _ _ _ _ _ _ _ hk
+    · exact fin _ _ _
     · rename_i hng
       have hnw : addr ∉ P.writingPre := fun hh => hng ⟨hg, hro, hh⟩
       split
-      · exact finishFrame_benExt _ _ _ _ _ _ _ hk
+      · exact fin _ _ _
       · split
-        · have := finishFrame_benExt P { m' with journal := m'.journal ++ List.replicate (if addr ∈ P.writingPre then w else 0) .write }
-            f parents .ok (gas - req) 0 hk
-          simpa [hnw] using this
-        · exact finishFrame_benExt _ _ _ _ _ _ _ hk
-  · exact finishFrame_benExt _ _ _ _ _ _ _ hk
+        · have hm : ({ m' with journal := m'.journal ++ List.map Entry.write [] } : Machine) = m' := by
+            simp
+          rw [hm]; exact fin _ _ _
+        · exact fin _ _ _
+  · exact fin _ _ _
 
 theorem transferJournal_benign (k : Kind) (value : Bool) (j : List Entry) (hk : k ≠ .create) (hv : k = .call → value = false) :
-    ∃ tr, transferJournal k value j = j ++ tr ∧ ∀ e ∈ tr, Benign e := by
+    ∃ tr, transferJournal k value j = j ++ tr ∧ AllB tr := by
   unfold transferJournal
   split
   · rename_i h
@@ -92,27 +113,27 @@ theorem transferJournal_benign (k : Kind) (value : Bool) (j : List Entry) (hk : 
     · rw [hv h]
       exact ⟨_, rfl, by intro e he; simp at he; subst he; trivial⟩
     · exact absurd h hk
-  · exact ⟨[], by simp, by intro e he; cases he⟩
+  · exact ⟨[], by simp, allB_nil⟩
 
-theorem enter_benExt (P : Params) (hg : P.guardPre = true) (m : Machine) (k : Kind) (gas : Nat) (value canT : Bool)
+/-- entering any callee under readOnly only appends benign entries to the caller's journal
+    (no truncation: the callee's snapshot is the caller's journal) -/
+theorem enter_benApp (P : Params) (hg : P.guardPre = true) (m : Machine) (k : Kind) (gas : Nat) (value canT : Bool)
     (callee : Callee) (hro : m.readOnly = true) (hk : k ≠ .create) (hv : k = .call → value = false) :
-    BenExt m.journal (enter P m k gas value canT callee).journal := by
+    BenApp m.journal (enter P m k gas value canT callee).journal := by
   unfold enter
   split
-  · exact benExt_refl _
+  · exact benApp_refl _
   · split
-    · exact benExt_refl _
+    · exact benApp_refl _
     · unfold enterCall
       split
-      · exact benExt_refl _
+      · exact benApp_refl _
       · split
-        · exact benExt_refl _
+        · exact benApp_refl _
         · obtain ⟨tr, h1, h2⟩ := transferJournal_benign k value m.journal hk hv
-          have := runCallee_benExt P hg
+          exact runCallee_benApp P hg
             { m with journal := transferJournal k value m.journal, readOnly := m.readOnly || decide (k = .staticCall) }
-            (newFrame m k gas) m.frames gas callee (by simp [hro]) hk
-          simp only [h1] at this ⊢
-          exact benExt_of_append h2 this
+            (newFrame m k gas) m.frames gas callee m.journal tr h1 h2 rfl (by simp [hro]) hk
 
 theorem kindOf_create (T : Table) (op : Nat) (h : T.kindOf op = some .create) : op = T.params.opCreate := by
   unfold Table.kindOf at h
@@ -134,15 +155,16 @@ theorem kindOf_call (T : Table) (op : Nat) (h : T.kindOf op = some .call) : op =
     split at h; · cases h
     cases h
 
-/-- one step under readOnly, innermost frame not a CREATE frame -/
-theorem step_benExt (T : Table) (hg : T.params.guardPre = true) (hcw : (T.info T.params.opCreate).writes = true)
+/-- one step under readOnly, innermost frame `f` not a CREATE frame: the journal afterwards is the old
+    one, or the old one truncated to exactly `f`'s snapshot, followed by benign entries only -/
+theorem step_benStep (T : Table) (hg : T.params.guardPre = true) (hcw : (T.info T.params.opCreate).writes = true)
     (m : Machine) (c : Choice) (f : Frame) (rest : List Frame) (hm : m.frames = f :: rest)
-    (hro : m.readOnly = true) (hk : f.kind ≠ .create) : BenExt m.journal (step T m c).journal := by
+    (hro : m.readOnly = true) (hk : f.kind ≠ .create) : BenStep f.snap m.journal (step T m c).journal := by
   unfold step
   rw [hm]
   simp only []
   cases hp : pre T m.readOnly f.gas c with
-  | error e => exact finishFrame_benExt _ _ _ _ _ _ _ hk
+  | error e => exact finishFrame_benStep _ _ _ _ _ _ _ hk
   | ok r =>
     obtain ⟨g, child⟩ := r
     simp only []
@@ -151,12 +173,12 @@ theorem step_benExt (T : Table) (hg : T.params.guardPre = true) (hcw : (T.info T
     | none =>
       simp only [hv.1, Bool.false_eq_true, if_false]
       split
-      · exact finishFrame_benExt _ _ _ _ _ _ _ hk
+      · exact finishFrame_benStep _ _ _ _ _ _ _ hk
       · split
-        · exact finishFrame_benExt _ { m with journal := m.journal } _ _ _ _ _ hk
+        · exact finishFrame_benStep _ { m with journal := m.journal } _ _ _ _ _ hk
         · split
-          · exact finishFrame_benExt _ { m with journal := m.journal } _ _ _ _ _ hk
-          · exact benExt_refl _
+          · exact finishFrame_benStep _ { m with journal := m.journal } _ _ _ _ _ hk
+          · exact benStep_refl _ _
     | some k =>
       simp only []
       have hkc : k ≠ .create := by
@@ -172,7 +194,7 @@ theorem step_benExt (T : Table) (hg : T.params.guardPre = true) (hcw : (T.info T
         cases hcv : c.value with
         | false => rfl
         | true => exact absurd ⟨rfl, hcv⟩ this
-      exact enter_benExt T.params hg { m with frames := { f with gas := g } :: rest } k child c.value c.canTransfer c.callee hro hkc hval
+      exact benStep_of_app (enter_benApp T.params hg { m with frames := { f with gas := g } :: rest } k child c.value c.canTransfer c.callee hro hkc hval)
 
 /-! ### the readOnly invariant -/
 
@@ -304,5 +326,294 @@ theorem step_roInv (T : Table) (hcw : (T.info T.params.opCreate).writes = true) 
 theorem begin_roInv (T : Table) (k : Kind) (gas : Nat) (value canT : Bool) (callee : Callee) :
     ROInv (begin T k gas value canT callee).readOnly (begin T k gas value canT callee).frames :=
   enter_roInv T.params Machine.init k gas value canT callee rfl (fun _ => rfl)
+
+/-! ### the journal of a static call -/
+
+theorem roInv_unique {a b : Bool} {fs : List Frame} (ha : ROInv a fs) (hb : ROInv b fs) : a = b := by
+  induction fs with
+  | nil => unfold ROInv at ha hb; rw [ha, hb]
+  | cons f r ih =>
+    unfold ROInv at ha hb
+    split at ha
+    · rename_i hs; rw [if_pos hs] at hb; rw [ha.1, hb.1]
+    · rename_i hs; rw [if_neg hs] at hb; exact ih ha.2 hb.2
+
+theorem roInv_of_addGas {ro : Bool} {fs : List Frame} (g : Nat) (h : ROInv ro (addGas fs g)) : ROInv ro fs := by
+  cases fs with
+  | nil => exact h
+  | cons f r => exact h
+
+theorem chain_all_prefix {j : List Entry} {fs : List Frame} (h : Chain j fs) : ∀ s ∈ fs, s.entry <+: j := by
+  induction fs generalizing j with
+  | nil => intro s hs; cases hs
+  | cons f r ih =>
+    intro s hs
+    obtain ⟨h1, _, h3⟩ := h
+    cases hs with
+    | head => exact h1
+    | tail _ hs' => exact (ih h3 s hs').trans h1
+
+theorem chain_entry_len {j : List Entry} {f : Frame} {rest : List Frame} (h : Chain j (f :: rest)) :
+    ∀ s ∈ f :: rest, s.entry.length ≤ f.snap := by
+  intro s hs
+  obtain ⟨_, h2, h3⟩ := h
+  rw [h2]
+  cases hs with
+  | head => exact Nat.le_refl _
+  | tail _ hs' => exact (chain_all_prefix h3 s hs').length_le
+
+/-- `SInv j fs`: relative to the innermost frame that switched readOnly on (the live StaticCall),
+    the journal `j` is that frame's snapshot journal followed by benign entries only -/
+def SInv : List Entry → List Frame → Prop
+  | _, [] => True
+  | j, f :: r => if f.setRO = true then ∃ ben, j = f.entry ++ ben ∧ AllB ben else SInv j r
+
+theorem sinv_addGas {j : List Entry} {fs : List Frame} (g : Nat) (h : SInv j fs) : SInv j (addGas fs g) := by
+  cases fs with
+  | nil => trivial
+  | cons f r => exact h
+
+theorem sinv_app {j j' : List Entry} {fs : List Frame} (h : SInv j fs) (hb : BenApp j j') : SInv j' fs := by
+  obtain ⟨ext, h1, h2⟩ := hb
+  induction fs with
+  | nil => trivial
+  | cons f r ih =>
+    unfold SInv at h ⊢
+    split
+    · rename_i hs
+      rw [if_pos hs] at h
+      obtain ⟨ben, hj, hben⟩ := h
+      exact ⟨ben ++ ext, by rw [h1, hj, List.append_assoc], allB_append hben h2⟩
+    · rename_i hs
+      rw [if_neg hs] at h
+      exact ih h
+
+theorem sinv_take {j ext : List Entry} {fs : List Frame} (lo : Nat) (h : SInv j fs)
+    (hlo : ∀ s ∈ fs, s.entry.length ≤ lo) (hext : AllB ext) : SInv (j.take lo ++ ext) fs := by
+  induction fs with
+  | nil => trivial
+  | cons f r ih =>
+    unfold SInv at h ⊢
+    split
+    · rename_i hs
+      rw [if_pos hs] at h
+      obtain ⟨ben, hj, hben⟩ := h
+      have hl := hlo f (List.mem_cons_self)
+      refine ⟨ben.take (lo - f.entry.length) ++ ext, ?_, allB_append (allB_take _ hben) hext⟩
+      rw [hj, List.take_append, List.take_of_length_le hl, List.append_assoc]
+    · rename_i hs
+      rw [if_neg hs] at h
+      exact ih h (fun s hs' => hlo s (List.mem_cons_of_mem _ hs'))
+
+theorem sinv_benStep {j j' : List Entry} {fs : List Frame} (lo : Nat) (h : SInv j fs)
+    (hlo : ∀ s ∈ fs, s.entry.length ≤ lo) (hb : BenStep lo j j') : SInv j' fs := by
+  obtain ⟨ext, h1, h2⟩ := hb
+  rcases h1 with h1 | h1
+  · exact sinv_app h ⟨ext, h1, h2⟩
+  · rw [h1]; exact sinv_take lo h hlo h2
+
+/-- the three invariants together -/
+structure Inv (m : Machine) : Prop where
+  chain : Chain m.journal m.frames
+  ro : ROInv m.readOnly m.frames
+  stat : m.readOnly = true → SInv m.journal m.frames
+
+theorem finishFrame_sinv (P : Params) (m : Machine) (f : Frame) (rest : List Frame) (res : Res) (g r : Nat)
+    (hc : Chain m.journal (f :: rest)) (hr : ROInv m.readOnly (f :: rest))
+    (hs : m.readOnly = true → SInv m.journal (f :: rest))
+    (hro' : (finishFrame P m f rest res g r).readOnly = true) :
+    SInv (finishFrame P m f rest res g r).journal (finishFrame P m f rest res g r).frames := by
+  have hrd : (finishFrame P m f rest res g r).readOnly = if f.setRO then false else m.readOnly := rfl
+  have hfr : (finishFrame P m f rest res g r).frames = addGas rest _ := rfl
+  rw [hrd] at hro'
+  by_cases hset : f.setRO = true
+  · rw [if_pos hset] at hro'; cases hro'
+  · rw [if_neg hset] at hro'
+    have hk : f.kind ≠ .create := by rw [hro'] at hr; exact roInv_top hr
+    have h1 := hs hro'
+    unfold SInv at h1
+    rw [if_neg hset] at h1
+    rw [hfr]
+    apply sinv_addGas
+    exact sinv_benStep f.snap h1 (fun s hs' => chain_entry_len hc s (List.mem_cons_of_mem _ hs'))
+      (finishFrame_benStep P m f rest res g r hk)
+
+theorem runCallee_cases (P : Params) (m' : Machine) (f : Frame) (parents : List Frame) (gas : Nat) (callee : Callee) :
+    ((runCallee P m' f parents gas callee).readOnly = m'.readOnly ∧
+      (runCallee P m' f parents gas callee).frames = f :: parents ∧
+      (runCallee P m' f parents gas callee).journal = m'.journal) ∨
+    (runCallee P m' f parents gas callee).readOnly = (if f.setRO then false else m'.readOnly) := by
+  unfold runCallee
+  split
+  · exact .inl ⟨rfl, rfl, rfl⟩
+  · split
+    · exact .inr rfl
+    · split
+      · exact .inr rfl
+      · split
+        · exact .inr rfl
+        · exact .inr rfl
+  · exact .inr rfl
+
+/-- entering a callee: if readOnly is on afterwards, the static-call journal invariant holds -/
+theorem runCallee_sinv (P : Params) (hg : P.guardPre = true) (m : Machine) (k : Kind) (gas : Nat) (value : Bool)
+    (callee : Callee) (hs : m.readOnly = true → SInv m.journal m.frames)
+    (hkv : m.readOnly = true → k ≠ .create ∧ (k = .call → value = false))
+    (hro' : (runCallee P { m with journal := transferJournal k value m.journal, readOnly := m.readOnly || decide (k = .staticCall) }
+              (newFrame m k gas) m.frames gas callee).readOnly = true) :
+    SInv (runCallee P { m with journal := transferJournal k value m.journal, readOnly := m.readOnly || decide (k = .staticCall) }
+              (newFrame m k gas) m.frames gas callee).journal
+         (runCallee P { m with journal := transferJournal k value m.journal, readOnly := m.readOnly || decide (k = .staticCall) }
+              (newFrame m k gas) m.frames gas callee).frames := by
+  by_cases hro : m.readOnly = true
+  · -- already read-only: only benign entries are appended
+    obtain ⟨hkc, hv⟩ := hkv hro
+    obtain ⟨tr, h1, h2⟩ := transferJournal_benign k value m.journal hkc hv
+    have happ := runCallee_benApp P hg
+      { m with journal := transferJournal k value m.journal, readOnly := m.readOnly || decide (k = .staticCall) }
+      (newFrame m k gas) m.frames gas callee m.journal tr h1 h2 rfl (by simp [hro]) hkc
+    have hset : (newFrame m k gas).setRO = false := by simp [newFrame, hro]
+    rcases runCallee_shape P { m with journal := transferJournal k value m.journal, readOnly := m.readOnly || decide (k = .staticCall) }
+        (newFrame m k gas) m.frames gas callee k rfl rfl rfl with ⟨x, res, _, hf, _⟩ | ⟨cf, _, _, _, hf, _⟩
+    · rw [hf]; exact sinv_addGas _ (sinv_app (hs hro) happ)
+    · -- the pushed frame is `newFrame`, which did not switch readOnly on
+      have hcf : (runCallee P { m with journal := transferJournal k value m.journal, readOnly := m.readOnly || decide (k = .staticCall) }
+              (newFrame m k gas) m.frames gas callee).frames = newFrame m k gas :: m.frames := by
+        revert hf
+        unfold runCallee
+        split
+        · intro _; rfl
+        · split
+          · intro hf; have := congrArg List.length hf; simp [finishFrame, length_addGas] at this
+          · split
+            · intro hf; have := congrArg List.length hf; simp [finishFrame, length_addGas] at this
+            · split
+              · intro hf; have := congrArg List.length hf; simp [finishFrame, length_addGas] at this
+              · intro hf; have := congrArg List.length hf; simp [finishFrame, length_addGas] at this
+        · intro hf; have := congrArg List.length hf; simp [finishFrame, length_addGas] at this
+      rw [hcf]
+      unfold SInv
+      rw [if_neg (by rw [hset]; simp)]
+      exact sinv_app (hs hro) happ
+  · -- readOnly was off: it can only be on afterwards if a StaticCall frame was pushed
+    have hrof : m.readOnly = false := by cases h : m.readOnly <;> simp_all
+    rcases runCallee_cases P { m with journal := transferJournal k value m.journal, readOnly := m.readOnly || decide (k = .staticCall) }
+        (newFrame m k gas) m.frames gas callee with ⟨h1, h2, h3⟩ | h1
+    · rw [h1] at hro'
+      have hk : k = .staticCall := by simpa [hrof] using hro'
+      subst hk
+      rw [h2, h3]
+      show SInv (transferJournal .staticCall value m.journal) (newFrame m .staticCall gas :: m.frames)
+      unfold SInv
+      rw [if_pos (by simp [newFrame, hrof])]
+      exact ⟨[], by simp [transferJournal, newFrame], allB_nil⟩
+    · rw [h1] at hro'
+      exfalso
+      by_cases hk : k = .staticCall <;> simp [newFrame, hrof, hk] at hro'
+
+theorem enter_sinv (P : Params) (hg : P.guardPre = true) (m : Machine) (k : Kind) (gas : Nat) (value canT : Bool)
+    (callee : Callee) (hs : m.readOnly = true → SInv m.journal m.frames)
+    (hkv : m.readOnly = true → k ≠ .create ∧ (k = .call → value = false))
+    (hro' : (enter P m k gas value canT callee).readOnly = true) :
+    SInv (enter P m k gas value canT callee).journal (enter P m k gas value canT callee).frames := by
+  have back : ∀ res g, (giveBack m res g).readOnly = true → SInv (giveBack m res g).journal (giveBack m res g).frames :=
+    fun res g h => sinv_addGas _ (hs h)
+  revert hro'
+  unfold enter
+  split
+  · exact back _ _
+  · split
+    · exact back _ _
+    · split
+      · rename_i hk
+        have hrof : m.readOnly = false := by
+          cases h : m.readOnly with
+          | false => rfl
+          | true => exact absurd hk (hkv h).1
+        unfold enterCreate
+        split
+        · exact back _ _
+        · intro hro'
+          exfalso
+          rcases runCallee_cases P { m with journal := transferJournal .create value m.journal } (newFrame m .create gas)
+              m.frames gas (if callee = .code then .code else .empty) with ⟨h1, _, _⟩ | h1
+          · rw [h1] at hro'; simp [hrof] at hro'
+          · rw [h1] at hro'; simp [newFrame, hrof] at hro'
+      · unfold enterCall
+        split
+        · exact back _ _
+        · split
+          · exact back _ _
+          · exact runCallee_sinv P hg m k gas value callee hs hkv
+
+/-- the static-call journal invariant is preserved by every interpreter step -/
+theorem step_sinv (T : Table) (hg : T.params.guardPre = true) (hcw : (T.info T.params.opCreate).writes = true)
+    (m : Machine) (c : Choice) (hi : Inv m) (hro' : (step T m c).readOnly = true) :
+    SInv (step T m c).journal (step T m c).frames := by
+  obtain ⟨hc, hr, hs⟩ := hi
+  cases hm : m.frames with
+  | nil =>
+    have : step T m c = m := by unfold step; rw [hm]
+    rw [this] at hro' ⊢
+    exact hs hro'
+  | cons f rest =>
+    rw [hm] at hc hr hs
+    revert hro'
+    unfold step
+    rw [hm]
+    simp only []
+    cases hp : pre T m.readOnly f.gas c with
+    | error e => exact finishFrame_sinv _ _ _ _ _ _ _ hc hr hs
+    | ok r =>
+      obtain ⟨g, child⟩ := r
+      simp only []
+      have hv := (pre_ok_valid T m.readOnly f.gas c _ hp).2.2.2
+      cases hkk : T.kindOf c.op with
+      | none =>
+        simp only []
+        have hc1 : Chain (if (T.info c.op).writes then m.journal ++ c.wtags.map Entry.write else m.journal) (f :: rest) := by
+          split
+          · exact chain_mono (List.prefix_append _ _) hc
+          · exact hc
+        have hs1 : m.readOnly = true →
+            SInv (if (T.info c.op).writes then m.journal ++ c.wtags.map Entry.write else m.journal) (f :: rest) := by
+          intro h
+          rw [(hv h).1]
+          exact hs h
+        split
+        · exact finishFrame_sinv _ _ _ _ _ _ _ hc hr hs
+        · split
+          · exact finishFrame_sinv _ { m with journal := _ } _ _ _ _ _ hc1 hr hs1
+          · split
+            · exact finishFrame_sinv _ { m with journal := _ } _ _ _ _ _ hc1 hr hs1
+            · exact hs1
+      | some k =>
+        simp only []
+        apply enter_sinv T.params hg { m with frames := { f with gas := g } :: rest } k child c.value c.canTransfer c.callee hs
+        intro hro
+        have hv' := hv hro
+        constructor
+        · intro hh
+          rw [hh] at hkk
+          rw [kindOf_create T c.op hkk, hcw] at hv'
+          cases hv'.1
+        · intro hh
+          rw [hh] at hkk
+          have := hv'.2
+          rw [kindOf_call T c.op hkk] at this
+          cases hcv : c.value with
+          | false => rfl
+          | true => exact absurd ⟨rfl, hcv⟩ this
+
+theorem step_inv (T : Table) (hg : T.params.guardPre = true) (hcw : (T.info T.params.opCreate).writes = true)
+    (m : Machine) (c : Choice) (hi : Inv m) : Inv (step T m c) :=
+  ⟨step_chain T m c hi.chain, step_roInv T hcw m c hi.ro, step_sinv T hg hcw m c hi⟩
+
+theorem init_inv : Inv Machine.init := ⟨trivial, rfl, fun h => by cases h⟩
+
+theorem begin_inv (T : Table) (hg : T.params.guardPre = true) (k : Kind) (gas : Nat) (value canT : Bool) (callee : Callee) :
+    Inv (begin T k gas value canT callee) :=
+  ⟨begin_chain T k gas value canT callee, begin_roInv T k gas value canT callee,
+   enter_sinv T.params hg Machine.init k gas value canT callee (fun h => by cases h) (fun h => by cases h)⟩
 
 end LemoProofs.EvmStatic
